@@ -24,7 +24,15 @@
 (* event is reported and the rest of that history is skipped (its abstract *)
 (* state is no longer trustworthy); validation resumes at the next reset.  *)
 (***************************************************************************)
-EXTENDS Bdd, TLC, Json, IOUtils
+EXTENDS Lang, TLC, Json, IOUtils
+
+\* formula events name the variables x1..xNV (NameSeq <- XSn in the cfg)
+XS2 == <<"x1", "x2">>
+XS3 == <<"x1", "x2", "x3">>
+XS4 == <<"x1", "x2", "x3", "x4">>
+XS5 == <<"x1", "x2", "x3", "x4", "x5">>
+XS6 == <<"x1", "x2", "x3", "x4", "x5", "x6">>
+XS7 == <<"x1", "x2", "x3", "x4", "x5", "x6", "x7">>
 
 Rec == ndJsonDeserialize(IOEnv.TRACE)
 
@@ -33,8 +41,10 @@ VARIABLES l,        \* next record
           uniq,     \* ids that are values of the unique table
           handles,  \* sequence of result ids, in call order
           sats,     \* sequence: Sat of each handle (for canonicity across all results)
+          live,     \* indices of the results the client still holds ("drop" events remove them)
+          gone,     \* ids whose table entry was removed while no live result reached them
           dead      \* a record of the current history was rejected
-vars == <<l, heap, uniq, handles, sats, dead>>
+vars == <<l, heap, uniq, handles, sats, live, gone, dead>>
 
 RECURSIVE Struct(_, _)
 Struct(h, i) ==
@@ -65,7 +75,11 @@ NewRowsWF(h2, from) ==
             /\ n[2] # n[3]
             /\ \A c \in {n[2], n[3]} : Len(h2[c]) = 3 => h2[c][1] > n[1]
 
-\* I_Unique: no new row duplicates any row
+\* I_Unique: no new row duplicates the row of any node that is still in the environment
+NewRowsUniqueG(h2, from, g) ==
+    LET old == {h2[i] : i \in (1..from) \ g} IN
+    /\ \A i \in (from + 1)..Len(h2) : h2[i] \notin old
+    /\ \A i \in (from + 1)..Len(h2) : \A j \in (from + 1)..Len(h2) : h2[i] = h2[j] => i = j
 NewRowsUnique(h2, from) ==
     LET old == {h2[i] : i \in 1..from} IN
     /\ \A i \in (from + 1)..Len(h2) : h2[i] \notin old
@@ -98,23 +112,25 @@ SemOK(r, res, A) ==
       [] r.op = "clean"  -> res = A[1]
       [] r.op = "fp"     -> \* transformers x |-> x op c : the fixed point is a op c
             Sres = {s \in Asg : BinSem(r.par[1], Den(A[1], s), Den(A[2], s))}
+      [] r.op = "formula" -> \* a formula evaluated in the shared environment: its documented meaning
+            LET m == SemC(r.ast, <<>>) IN m.ok /\ Sres = ToIdxSet(m.s)
       [] OTHER -> TRUE
 
 Init ==
-    /\ l = 1 /\ heap = <<>> /\ uniq = {} /\ handles = <<>> /\ sats = <<>> /\ dead = FALSE
+    /\ l = 1 /\ heap = <<>> /\ uniq = {} /\ handles = <<>> /\ sats = <<>> /\ live = {} /\ gone = {} /\ dead = FALSE
 
-Reject(why) == PrintT(<<"REJECT", l, why>>)
+Reject(why) == PrintT("REJECT|" \o ToString(l) \o "|" \o why)
 
 DoReset(r) ==
     IF RowsFit(<<>>, r.rows)
     THEN LET h2 == Extend(<<>>, r.rows)
              u2 == SeqRange(r.uadd)
          IN IF LeavesOK(h2, u2) /\ NewRowsUnique(h2, 0)
-            THEN /\ heap' = h2 /\ uniq' = u2 /\ handles' = <<>> /\ sats' = <<>> /\ dead' = FALSE
+            THEN /\ heap' = h2 /\ uniq' = u2 /\ handles' = <<>> /\ sats' = <<>> /\ live' = {} /\ gone' = {} /\ dead' = FALSE
             ELSE /\ Reject("reset: leaves missing") /\ dead' = TRUE
-                 /\ heap' = <<>> /\ uniq' = {} /\ handles' = <<>> /\ sats' = <<>>
+                 /\ heap' = <<>> /\ uniq' = {} /\ handles' = <<>> /\ sats' = <<>> /\ live' = {} /\ gone' = {}
     ELSE /\ Reject("reset: rows malformed") /\ dead' = TRUE
-         /\ heap' = <<>> /\ uniq' = {} /\ handles' = <<>> /\ sats' = <<>>
+         /\ heap' = <<>> /\ uniq' = {} /\ handles' = <<>> /\ sats' = <<>> /\ live' = {} /\ gone' = {}
 
 \* the first failed requirement of an "op" event, "" if it is accepted
 Verdict(r) ==
@@ -125,12 +141,12 @@ Verdict(r) ==
              u2   == (uniq \cup SeqRange(r.uadd)) \ SeqRange(r.udel)
          IN IF ~(r.res \in 1..Len(h2)) THEN "result id unknown"
             ELSE IF ~NewRowsWF(h2, from) THEN "I_WF: node not ordered/reduced"
-            ELSE IF ~NewRowsUnique(h2, from) THEN "I_Unique: structure exists twice"
+            ELSE IF ~NewRowsUniqueG(h2, from, gone) THEN "I_Unique: structure exists twice"
             ELSE IF ~LeavesOK(h2, u2) THEN "I_Leaves: leaf missing from table"
             ELSE IF ~r.keyok THEN "table key differs from its value"
             ELSE IF ~r.stable THEN "A_AppendOnly: an earlier node changed"
             ELSE IF ~(Reach(h2, r.res) \subseteq u2) THEN "I_Closed: result node not in table"
-            ELSE IF r.udel # <<>> /\ ~(\A k \in DOMAIN handles : Reach(h2, handles[k]) \subseteq u2)
+            ELSE IF r.udel # <<>> /\ ~(\A k \in live : Reach(h2, handles[k]) \subseteq u2)
                  THEN "I_Closed: table entry of a live diagram removed"
             ELSE LET res == Struct(h2, r.res)
                      A   == [k \in DOMAIN r.args |-> Struct(h2, handles[r.args[k]])]
@@ -138,7 +154,7 @@ Verdict(r) ==
                     ELSE IF res # r.fresh THEN "A_HistoryFree: differs from fresh environment"
                     ELSE IF ~SemOK(r, res, A) THEN "result does not denote the operation"
                     ELSE LET sr == Sat(res) IN
-                         IF \E k \in DOMAIN handles : (sats[k] = sr) # (handles[k] = r.res)
+                         IF \E k \in live : (sats[k] = sr) # (handles[k] = r.res)
                          THEN "I_Canon: equal function <=> same node violated"
                          ELSE ""
 
@@ -150,15 +166,24 @@ DoOp(r) ==
          /\ uniq' = (uniq \cup SeqRange(r.uadd)) \ SeqRange(r.udel)
          /\ handles' = Append(handles, r.res)
          /\ sats' = Append(sats, Sat(Struct(h2, r.res)))
+         /\ live' = live \cup {Len(handles) + 1}
+         /\ gone' = gone \cup SeqRange(r.udel)
          /\ dead' = FALSE
-    ELSE /\ Reject(v) /\ dead' = TRUE /\ UNCHANGED <<heap, uniq, handles, sats>>
+    ELSE /\ Reject(v) /\ dead' = TRUE /\ UNCHANGED <<heap, uniq, handles, sats, live, gone>>
+
+\* the client forgets a result; the environment itself is unchanged
+DoDrop(r) ==
+    IF r.h \in live
+    THEN live' = live \ {r.h} /\ UNCHANGED <<heap, uniq, handles, sats, gone, dead>>
+    ELSE Reject("drop of a result that is not held") /\ dead' = TRUE /\ UNCHANGED <<heap, uniq, handles, sats, live, gone>>
 
 Step ==
     /\ l <= Len(Rec)
     /\ l' = l + 1
     /\ LET r == Rec[l] IN
        IF r.k = "reset" THEN DoReset(r)
-       ELSE IF dead THEN UNCHANGED <<heap, uniq, handles, sats, dead>>
+       ELSE IF dead THEN UNCHANGED <<heap, uniq, handles, sats, live, gone, dead>>
+       ELSE IF r.k = "drop" THEN DoDrop(r)
        ELSE DoOp(r)
 
 Next == Step
